@@ -210,6 +210,66 @@ theorem C16_byip_never_stale (ops : List HOp) :
     exact this ops _ SInv_empty
   exact NoStale_lookup r hi.knodup hi.ns a x hx
 
+/-- along the history: no host is added by a ring operation while a host with another id has its address,
+and every refresh has a `GoodReport`; removals are unrestricted, everything may be interleaved -/
+def HGuarded : Ring.Ring → List HOp → Prop
+  | _, [] => True
+  | r, .op (.addIfMissing h) :: t => AddrFree r h ∧ HGuarded (r.addIfMissing h).1 t
+  | r, .op (.addOrUpdate h) :: t => AddrFree r h ∧ HGuarded (r.addOrUpdate h).1 t
+  | r, .op (.remove id) :: t => HGuarded (r.remove id).1 t
+  | r, .refresh f rep :: t => GoodReport (f, rep) ∧ HGuarded (r.refresh f rep).1 t
+
+theorem RInv_runH (r : Ring.Ring) (hr : RInv r) (ops : List HOp) (hg : HGuarded r ops) : RInv (ops.foldl applyH r) := by
+  induction ops generalizing r with
+  | nil => exact hr
+  | cons o t ih =>
+    cases o with
+    | op o =>
+      cases o with
+      | addIfMissing h => exact ih _ (RInv_addIfMissing r hr h hg.1) hg.2
+      | addOrUpdate h => exact ih _ (RInv_addIfMissing r hr h hg.1) hg.2
+      | remove id => exact ih _ (RInv_remove r hr id) hg
+    | refresh f rep => exact ih _ (refresh_RInv r hr f rep hg.1.1 hg.1.2) hg.2
+
+theorem notFound_nil_of (r : Ring.Ring)
+    (h : ∀ h ∈ r.allHosts, r.getHost h.id = some h ∧ r.getHostByIP h.addr = (some h, true)) : r.notFound = [] := by
+  unfold Ring.notFound
+  rw [List.filter_eq_nil_iff]
+  intro a ha
+  have := h a ha
+  simp [this.1, this.2]
+
+/-- The interleaved form (subsumes `C16_refresh_index_consistent_from_empty` and
+`C16_ops_index_consistent_distinct_addr`; it is the condition under which the differential run treats the
+observation `consistent` = `Ring.notFound` as specified): for every history of ring operations and
+refreshes satisfying `HGuarded`, every host of the ring is found by its id and by its address. -/
+theorem C16_history_index_consistent (ops : List HOp) (hg : HGuarded Ring.empty ops) :
+    let r := ops.foldl applyH Ring.empty
+    (∀ h ∈ r.allHosts, r.getHost h.id = some h ∧ r.getHostByIP h.addr = (some h, true)) ∧ r.notFound = [] := by
+  intro r
+  have h1 : ∀ h ∈ r.allHosts, r.getHost h.id = some h ∧ r.getHostByIP h.addr = (some h, true) :=
+    fun h hh => RInv_lookup r (RInv_runH _ RInv_empty ops hg) h hh
+  exact ⟨h1, notFound_nil_of r h1⟩
+
+/-- the observation `covered` = `Ring.uncovered` of the differential run is empty after every
+`RemGuarded` history of ring operations -/
+theorem C16_ops_uncovered_nil (ops : List ROp) (hg : RemGuarded Ring.empty ops) :
+    (ops.foldl applyOp Ring.empty).uncovered = [] := by
+  have hall := C16_ops_index_consistent ops hg
+  dsimp only at hall
+  generalize ops.foldl applyOp Ring.empty = r at hall
+  unfold Ring.uncovered
+  rw [List.filter_eq_nil_iff]
+  intro a ha
+  obtain ⟨h1, ⟨h', hm, hadr, hget⟩, _⟩ := hall a ha
+  rw [hget]
+  by_cases e : h' = a
+  · subst e
+    simp [h1, ha]
+  · simp only [h1, hm, hadr, decide_true, beq_self_eq_true, Bool.and_true, Bool.true_and, e, decide_false,
+      Bool.false_or, Bool.not_eq_eq_eq_not, Bool.not_true, Bool.not_eq_false]
+    exact List.any_eq_true.mpr ⟨h', hm, by simp [e, hadr]⟩
+
 /-- RESIDUAL case (kernel-checked), outside what the property demands: two LIVE hosts on one address is
 not a state a cluster reports (`GoodReport`), it exists only transiently inside the diff loop, where the
 host removed is never the indexed one (`IdxCore_remove`). With the repaired code the by-address index
